@@ -254,6 +254,7 @@ func (h *framerH) runMode(st *stream, cuts []int, buf []byte, mode string) (sig,
 			h.trace("deliver bytes [%d,%d) (%d delivered)", end-len(c.pend), end, end)
 		}
 		for {
+			c.wbHits = 0
 			got, _, err := sc.ReadFrom(buf)
 			if h.trace != nil {
 				h.trace("  ReadFrom -> n=%d err=%v %s", got, err, hexShort(buf[:min(max(got, 0), len(buf))]))
@@ -276,6 +277,13 @@ func (h *framerH) runMode(st *stream, cuts []int, buf []byte, mode string) (sig,
 
 				return "error-on-valid-stream:" + st.at(next),
 					fmt.Sprintf("ReadFrom returned error %q although the bytes at offset %d begin a valid frame", err, pos)
+			}
+			if got > 0 && c.wbHits > 0 {
+				// the frame was complete with the bytes delivered, yet the packetiser asked the transport for more
+				// before handing it out: on a connection that stays open and idle that Read does not return
+				return "frame-withheld:waits-for-bytes-it-does-not-need:" + st.at(min(next, nf-1)),
+					fmt.Sprintf("ReadFrom returned %d bytes only after a Read that found nothing more to read (%d delivered bytes, next frame %d at offset %d): a blocking transport would still be waiting",
+						got, end, next, pos)
 			}
 			results++
 			if results > maxResults {
